@@ -165,7 +165,7 @@ Proof. exact later_candidates_irrelevant. Qed.
     Guard: the constructor returned ([start fs i = Ok c0]); the other case is
     the next theorem. *)
 Theorem C03_whole_script_meets_spec : forall fs i ops c0,
-  start fs i = Ok c0 -> C03Corr.spec (model_case fs i ops) = true.
+  start fs i = Ok c0 -> C03Corr.spec_loads (model_case fs i ops) = true.
 Proof. exact whole_script_meets_spec. Qed.
 
 (** What [model_case] is: the record whose observations are the model's. *)
@@ -189,7 +189,7 @@ Proof. exact constructor_failure_meets_spec. Qed.
     first call would have replaced the clashing level -- [C03Corr.ops_run]
     judges the first call of the script then; no object exists in reality.) *)
 Theorem C03_constructor_io_failure_any_script : forall fs i ops e,
-  exec fs (b0 i) (init_ops i) = Err e -> C03Corr.spec (model_case fs i ops) = true.
+  exec fs (b0 i) (init_ops i) = Err e -> C03Corr.spec_loads (model_case fs i ops) = true.
 Proof. exact constructor_io_failure_any_script. Qed.
 
 (** Pieces of the above that read well on their own: every clean prefix of a
